@@ -30,7 +30,7 @@ from ..recipes import ref as R
 
 LEVEL = "exploration"
 BUDGET_S = {"quick": 85, "thorough": 1500}
-N_RANDOM = {"quick": 26, "thorough": 900}
+N_RANDOM = {"quick": 28, "thorough": 900}
 NLP_METHODS = ["auto", "SLSQP", "trust-constr", "L-BFGS-B", "BFGS", "Nelder-Mead", "COBYLA", "Powell", "TNC", "CG"]
 LP_METHODS = ["auto", "linprog", "highs", "highs-ds", "highs-ipm", "SLSQP", "trust-constr"]
 
@@ -100,7 +100,7 @@ def info(tier):
         "point x min/max x tol x 5 methods; linprog statuses 0-4); every OPTIMAL solution's constraints and bounds are "
         "re-evaluated by the reference interpreter; distinct = canonical (problem, method, options | stub script) hashes"
         % len(message_catalogue()),
-        "required_cells": ["A:feasible", "A:infeasible", "A:boundary", "A:lp-feasible", "A:lp-infeasible"]
+        "required_cells": ["A:feasible", "A:infeasible", "A:boundary", "A:lp-feasible", "A:lp-infeasible", "A:deep-constraint", "A:edit-then-resolve"]
         + [f"A:method:{m}" for m in sorted(set(NLP_METHODS + LP_METHODS))]
         + [f"B:point:{p}" for p in ("feasible", "violates-le", "violates-ge", "violates-eq", "violates-lb", "violates-ub")]
         + ["B:success:True", "B:success:False", "B:linprog"],
@@ -176,6 +176,46 @@ def run_real(rec, rng, prob, cell, method, opts):
     judge(rec, prob, sol, cell, f"A:{method}", tol_user=opts.get("tol"), extra=extra)
 
 
+def deep_constraint_problem(rng):
+    """a constraint whose left side is accumulated term by term beyond the depth at which optyx switches algorithms"""
+    n = rng.choice([410, 450, 520])
+    decls = [{"k": "vec", "name": "x", "n": 3, "lb": -2.0, "ub": 3.0}]
+    x = ["vec", "x"]
+    acc = ["bin", "*", ["raw", 1.0, "float"], ["el", x, 0]]
+    for i in range(1, n):
+        t = ["bin", "*", ["raw", 0.5 + 0.01 * (i % 7), "float"], ["el", x, i % 3]]
+        acc = ["bin", "+", acc, t] if i % 5 else ["bin", "-", acc, ["neg", t]]
+    s = rng.choice(["<=", ">="])
+    rhs = 40.0 if s == "<=" else 250.0  # cuts off the unconstrained optimum either way
+    tgt = ["arr", [2.5, 2.0, -1.5] if s == "<=" else [-1.0, 0.5, 0.0]]
+    d = ["vbin", "-", x, tgt]
+    return {"decls": decls, "objective": ["dot", d, d], "sense": "min", "constraints": [["rel", s, acc, ["raw", rhs, "float"], "direct"]]}
+
+
+def run_edit_then_resolve(rec, rng, prob, later, cell, method):
+    """solve; then add `later` (a list of constraints) with one subject_to([...]) call; solve again; judge against all."""
+    rec.case({"p": prob["objective"], "c": prob.get("constraints"), "l": later, "d": prob["decls"], "m": method})
+    full = dict(prob, constraints=list(prob.get("constraints", [])) + list(later))
+    try:
+        b = B.Builder(prob["decls"])
+        P = b.problem(prob)
+        kw = {"maxiter": 300} if method == "trust-constr" else {}
+        with warnings.catch_warnings():
+            warnings.simplefilter("ignore")
+            P.solve(method=method, **kw)
+            lst = []
+            for r in later:
+                c = b.rel(r)
+                lst.extend(c if isinstance(c, list) else [c])
+            P.subject_to(lst)
+            sol = P.solve(method=method, **kw)
+    except Exception as ex:
+        rec.events[f"edit-history-raises:{type(ex).__name__}"] += 1
+        return
+    rec.cmp(1, f"A:method:{method}")
+    judge(rec, full, sol, cell, f"A:{method}:after-adding-constraints", extra={"method": method, "history": "solve; subject_to([...]); solve"})
+
+
 def option_sets(rng, method, lp):
     if lp and method in ("linprog", "highs", "highs-ds", "highs-ipm", "auto"):
         return [{}]
@@ -197,8 +237,27 @@ def workload_a(ctx, rec):
     while n < N_RANDOM[ctx.tier] and not rec.out_of_time():
         n += 1
         k += 1
-        which = k % 5
+        which = k % 7
         lp = False
+        if which == 5:
+            prob = deep_constraint_problem(rng)
+            for m in ("auto", "SLSQP", "trust-constr"):
+                run_real(rec, rng, prob, "A:deep-constraint", m, {"maxiter": 300} if m == "trust-constr" else {})
+            continue
+        if which == 6:
+            if n % 2:
+                base = NG.draw_convex(rng, bounds=rng.random() < 0.5)
+                inf = NG.infeasible_variant(rng, base)
+                later = inf["constraints"][len(base["constraints"]):]
+                for m in ("auto", "SLSQP", "trust-constr"):
+                    run_edit_then_resolve(rec, rng, {kk: base[kk] for kk in ("decls", "objective", "sense", "constraints")}, later, "A:edit-then-resolve", m)
+            else:
+                lpm = L.draw_lp(rng, kind="infeasible")
+                cut = max(0, len(lpm["constraints"]) - 2)
+                base = dict(lpm, constraints=lpm["constraints"][:cut])
+                for m in ("auto", "highs-ds", "SLSQP"):
+                    run_edit_then_resolve(rec, rng, {kk: base[kk] for kk in ("decls", "objective", "sense", "constraints")}, lpm["constraints"][cut:], "A:edit-then-resolve", m)
+            continue
         if which == 0:
             prob, cell = NG.draw_convex(rng, bounds=rng.random() < 0.7), "A:feasible"
         elif which == 1:
@@ -212,7 +271,7 @@ def workload_a(ctx, rec):
         methods = LP_METHODS if lp else NLP_METHODS
         # every method on every problem in thorough; a rotating subset of 4 in quick
         if ctx.tier == "quick":
-            ms = [methods[(k + j * 3) % len(methods)] for j in range(4)]
+            off = rng.randrange(len(methods)); ms = [methods[(off + j * 3) % len(methods)] for j in range(4)]
         else:
             ms = methods
         for m in dict.fromkeys(ms):
